@@ -136,7 +136,10 @@ Section Validate.
     | Some e =>
         match rev with
         | None => [(ms, e)]
-        | Some rv => rev_loop (rev_fuel me) rv (fun _ => Some e) (N.max sp (me - MAX_SPLIT_MATCH_LENGTH)) me
+        | Some rv =>
+            (* a start after the end (the two validators followed different branches) is dropped: fix 9c of the notes *)
+            rev_loop (rev_fuel me) rv (fun s => if s <=? e then Some e else None)
+                     (N.max sp (me - MAX_SPLIT_MATCH_LENGTH)) me
         end
     end.
 
